@@ -259,7 +259,7 @@ XMLReader::XMLReader(const  XMLCh* const          pubId
             // Look at the raw buffer as short chars
             const char* asChars = (const char*)fRawByteBuf;
 
-            if (fRawBytesAvail > XMLRecognizer::fgUTF8BOMLen &&
+            if (fRawBytesAvail >= XMLRecognizer::fgUTF8BOMLen &&
                 XMLString::compareNString(  asChars
                                             , XMLRecognizer::fgUTF8BOM
                                             , XMLRecognizer::fgUTF8BOMLen) == 0)
@@ -1608,7 +1608,7 @@ void XMLReader::doInitDecode()
             // Look at the raw buffer as short chars
             const char* asChars = (const char*)fRawByteBuf;
 
-            if (fRawBytesAvail > XMLRecognizer::fgUTF8BOMLen &&
+            if (fRawBytesAvail >= XMLRecognizer::fgUTF8BOMLen &&
                 XMLString::compareNString(  asChars
                                             , XMLRecognizer::fgUTF8BOM
                                             , XMLRecognizer::fgUTF8BOMLen) == 0)
